@@ -405,4 +405,670 @@ Proof.
     cbn [wcore] in H. destruct (wcore x); cbn [origin_spec] in H;
       try (apply og_plain_special; assumption); rewrite H; try reflexivity. destruct sp; reflexivity.
 Qed.
+
+(* ------------------------------------------------------------------------------------------- *)
+(* Part D: agreement, one lemma per local predicate of Graph.v                                   *)
+(* ------------------------------------------------------------------------------------------- *)
+
+(* ---- should_unwrap, unwrap *)
+Lemma is_literal_tr : forall t,
+  match tr Nm t with I.ILiteral _ => true | _ => false end = G.is_literal t.
+Proof. destruct t; try reflexivity. cbn [tr]. destruct g; reflexivity. Qed.
+
+Lemma should_unwrap_tr : forall t, I.should_unwrap T (tr Nm t) = is_final (wcore t).
+Proof.
+  intro t. unfold I.should_unwrap. rewrite is_literal_tr, isclassvartype_tr, isfinal_tr. cbn [orb].
+  destruct t; try reflexivity.
+Qed.
+
+Lemma unwrap_wcore : forall t, G.unwrap t = G.unwrap (wcore t).
+Proof. induction t using gty_ind'; cbn [wcore G.unwrap]; auto. Qed.
+Lemma wsize_wcore : forall t, wsize (wcore t) <= wsize t.
+Proof. induction t using gty_ind'; cbn [wcore wsize]; auto; lia. Qed.
+Lemma wend_wcore : forall t, wend t = wend (wcore t).
+Proof. induction t using gty_ind'; cbn [wcore wend]; auto. Qed.
+
+Lemma unwrap_fuel_S : forall k x, I.unwrap_fuel T (S k) x =
+  let step := match x with
+              | I.IAlias _ v => I.unwrap_fuel T k v
+              | I.IAliasStr _ s => I.Ok (I.IForwardRef s (Some I.user_module))
+              | I.INewType _ s => I.unwrap_fuel T k s
+              | _ => I.Ok x
+              end in
+  if I.should_unwrap T x then
+    match I.dunder_args (I.resolve_wrappers x) with
+    | Some (y :: _) => I.unwrap_fuel T k y
+    | _ => step
+    end
+  else step.
+Proof. reflexivity. Qed.
+
+(* the shortcut of the code: the qualifier found behind NewTypes / aliases *)
+Lemma unwrap_shortcut : forall k x,
+  (forall t, wsize t < k -> unwrap_guard t = true -> I.unwrap_fuel T k (tr Nm t) = I.Ok (tr Nm (G.unwrap t))) ->
+  wsize x < k -> unwrap_guard x = true -> is_final (wcore x) = true ->
+  match I.dunder_args (rw_image Nm (wcore x)) with
+  | Some (y :: _) => I.unwrap_fuel T k y
+  | _ => I.Ok (tr Nm x)
+  end = I.Ok (tr Nm (G.unwrap x)).
+Proof.
+  intros k x IH Hsz Hg Hf.
+  pose proof (wsize_wcore x) as Hle. pose proof (unwrap_wcore x) as Hu.
+  unfold unwrap_guard in Hg. rewrite (wend_wcore x) in Hg.
+  destruct (wcore x) as [s| | | |n|g a|sp ms|c|m n y|m n y|m n bd|y|a mo]; try discriminate Hf.
+  cbn [rw_image tr I.dunder_args]. cbn [wsize] in Hle. cbn [wend] in Hg. cbn [G.unwrap] in Hu.
+  rewrite Hu. apply IH; [lia | exact Hg].
+Qed.
+
+Lemma unwrap_fuel_tr : forall n t, wsize t < n -> unwrap_guard t = true ->
+  I.unwrap_fuel T n (tr Nm t) = I.Ok (tr Nm (G.unwrap t)).
+Proof.
+  induction n as [|k IH]; intros t Hsz Hg; [lia|].
+  rewrite unwrap_fuel_S. cbv zeta. rewrite should_unwrap_tr, resolve_wrappers_tr.
+  destruct t as [s| | | |n|g a|sp ms|c|m n x|m n x|m n bd|x|a mo]; cbn [wcore is_final];
+    try reflexivity.
+  - (* generic *) cbn [tr G.unwrap]. destruct g; reflexivity.
+  - (* NewType *) cbn [wsize] in Hsz. assert (Hgx : unwrap_guard x = true) by exact Hg.
+    destruct (is_final (wcore x)) eqn:Hf.
+    + cbn [G.unwrap].
+      pose proof (unwrap_shortcut k x IH ltac:(lia) Hgx Hf) as Hs.
+      destruct (I.dunder_args (rw_image Nm (wcore x))) as [[|y r]|] eqn:Hd.
+      * exfalso. destruct (wcore x); try discriminate Hf. discriminate Hd.
+      * exact Hs.
+      * exfalso. destruct (wcore x); try discriminate Hf. discriminate Hd.
+    + cbn [tr G.unwrap]. apply IH; [lia | exact Hgx].
+  - (* alias *) cbn [wsize] in Hsz. assert (Hgx : unwrap_guard x = true) by exact Hg.
+    destruct (is_final (wcore x)) eqn:Hf.
+    + cbn [G.unwrap].
+      pose proof (unwrap_shortcut k x IH ltac:(lia) Hgx Hf) as Hs.
+      destruct (I.dunder_args (rw_image Nm (wcore x))) as [[|y r]|] eqn:Hd.
+      * exfalso. destruct (wcore x); try discriminate Hf. discriminate Hd.
+      * exact Hs.
+      * exfalso. destruct (wcore x); try discriminate Hf. discriminate Hd.
+    + cbn [tr G.unwrap]. apply IH; [lia | exact Hgx].
+  - (* string alias *) cbn [tr G.unwrap]. unfold unwrap_guard in Hg. cbn [wend] in Hg.
+    apply andb_prop in Hg. destruct Hg as [Hm Hb]. apply String.eqb_eq in Hm. apply String.eqb_eq in Hb.
+    change (G.sapp m ".") with (m +++ "."). rewrite Hb, Hm. reflexivity.
+  - (* Final *) cbn [rw_image tr I.dunder_args G.unwrap]. cbn [wsize] in Hsz. apply IH; [lia | exact Hg].
+Qed.
+
+(* ---- args *)
+Lemma get_args_gen : forall g l, I.get_args (tr_gen Nm g l) = l.
+Proof. destruct g; reflexivity. Qed.
+
+Lemma args_tr : forall t, args_guard t = true -> I.args (tr Nm t) = map (tr Nm) (G.args_of t).
+Proof.
+  intros t Hg. unfold I.args.
+  destruct t; try reflexivity; try discriminate Hg; cbn [tr G.args_of].
+  - rewrite get_args_gen. apply map_normalize_tr.
+  - cbn [I.get_args]. apply map_normalize_tr.
+Qed.
+
+(* without the guard, on every annotation *)
+Lemma args_tr_all : forall t,
+  I.args (tr Nm t) =
+  match t with
+  | G.GLit n => [I.IValue (I.LInt (Z.of_nat n))]
+  | G.GFinal x => [tr Nm x]
+  | _ => map (tr Nm) (G.args_of t)
+  end.
+Proof.
+  intro t. destruct t; try reflexivity; try (apply args_tr; reflexivity).
+  cbn [tr]. unfold I.args. cbn [I.get_args map]. rewrite tr_not_typevar. reflexivity.
+Qed.
+
+(* ---- isforwardref, skip *)
+Lemma isforwardref_tr : forall t, I.isforwardref (tr Nm t) = G.is_ref t.
+Proof. destruct t; try reflexivity. cbn [tr]. destruct g; reflexivity. Qed.
+
+Lemma skip_tr : forall var c,
+  G.skip var c =
+  I.ity_eqb (tr Nm c) I.IEllipsis
+  || (I.ity_eqb (tr Nm c) (I.IClass I.c_Any) && match var with Some _ => true | None => false end).
+Proof.
+  intros var c. rewrite tr_is_ellipsis, tr_any. destruct c; reflexivity.
+Qed.
+
+(* ---- isunresolvable: the first line of graph._level *)
+Lemma base_unres : I.mem_ity (I.IClass I.c_NoneType) (I.t_unresolvable T) = false
+  /\ I.mem_ity (I.IClass I.c_Any) (I.t_unresolvable T) = true
+  /\ I.mem_ity I.IEllipsis (I.t_unresolvable T) = true
+  /\ I.mem_ity I.INone (I.t_unresolvable T) = false
+  /\ I.mem_ity (I.ISpecial I.SUnion) (I.t_unresolvable T) = false
+  /\ I.mem_ity (I.IClass I.c_UnionType) (I.t_unresolvable T) = false
+  /\ I.mem_ity (I.ISpecial I.SLiteral) (I.t_unresolvable T) = false
+  /\ I.mem_ity (I.ISpecial I.SFinal) (I.t_unresolvable T) = false.
+Proof.
+  pose proof Hbase as H. split_base H.
+  repeat match goal with X : negb _ = true |- _ => apply negb_true_iff in X end.
+  repeat split; assumption.
+Qed.
+
+Lemma isunresolvable_tr : forall t, I.isunresolvable T (tr Nm t) = is_ellipsis t || is_any t.
+Proof.
+  intro t. unfold I.isunresolvable.
+  destruct base_unres as [U1 [U2 [U3 [U4 [U5 [U6 [U7 U8]]]]]]].
+  destruct t as [s| | | |n|g a|sp ms|c|m n x|m n x|m n bd|x|a mo]; cbn [tr is_ellipsis is_any orb].
+  - sc_fact s. repeat match goal with X : negb _ = true |- _ => apply negb_true_iff in X end.
+    cbn [I.get_origin]. destruct (N.eqb (sid Nm s) I.c_Generic);
+      repeat match goal with X : I.mem_ity (I.IClass (sid Nm s)) _ = false |- _ => rewrite X end;
+      rewrite ?U4; reflexivity.
+  - cbn [I.get_origin]. destruct (N.eqb I.c_NoneType I.c_Generic); rewrite ?U1, ?U4; reflexivity.
+  - rewrite U3. reflexivity.
+  - rewrite U2. reflexivity.
+  - rewrite (mem_simple _ (I.ILiteral [I.LInt (Z.of_nat n)]) base_unres_simple eq_refl). cbn [I.get_origin].
+    rewrite U7. reflexivity.
+  - assert (Hm : I.mem_ity (tr_gen Nm g (map (tr Nm) a)) (I.t_unresolvable T) = false).
+    { apply (mem_simple _ _ base_unres_simple). destruct g; reflexivity. }
+    rewrite Hm. gen_fact g. repeat match goal with X : negb _ = true |- _ => apply negb_true_iff in X end.
+    replace (match I.get_origin T (tr_gen Nm g (map (tr Nm) a)) with Some o => o | None => I.INone end)
+      with (I.IClass (gen_origin T Nm g)) by (destruct g; reflexivity).
+    assumption.
+  - rewrite (mem_simple _ (I.IUnion (tr_sp sp) (map (tr Nm) ms)) base_unres_simple eq_refl).
+    destruct sp; cbn [tr_sp I.get_origin]; rewrite ?U5, ?U6; reflexivity.
+  - destruct (fresh_parts c) as [_ [_ [_ [Hu [_ [_ [_ Hgn]]]]]]]. rewrite Hu. cbn [I.get_origin].
+    rewrite Hgn. rewrite U4. reflexivity.
+  - rewrite (mem_simple _ (I.INewType n (tr Nm x)) base_unres_simple eq_refl). cbn [I.get_origin]. rewrite U4. reflexivity.
+  - rewrite (mem_simple _ (I.IAlias n (tr Nm x)) base_unres_simple eq_refl). cbn [I.get_origin]. rewrite U4. reflexivity.
+  - rewrite (mem_simple _ (I.IAliasStr n bd) base_unres_simple eq_refl). cbn [I.get_origin]. rewrite U4. reflexivity.
+  - rewrite (mem_simple _ (I.IFinal (tr Nm x)) base_unres_simple eq_refl). cbn [I.get_origin]. rewrite U8. reflexivity.
+  - rewrite (mem_simple _ (I.IForwardRef a mo) base_unres_simple eq_refl). cbn [I.get_origin]. rewrite U4. reflexivity.
+Qed.
+
+Lemma unresolvable_level : forall t, I.isunresolvable T (tr Nm t) = true -> G.level E t = [].
+Proof.
+  intros t H. rewrite isunresolvable_tr in H. destruct t; try discriminate H; reflexivity.
+Qed.
+
+(* ---- isfixedtupletype *)
+Lemma is_ellipsis_tr : forall x, match tr Nm x with I.IEllipsis => true | _ => false end = is_ellipsis x.
+Proof. destruct x; try reflexivity. cbn [tr]. destruct g; reflexivity. Qed.
+
+Lemma last_is_ellipsis_tr : forall l, I.last_is_ellipsis (map (tr Nm) l) = G.last_is_ellipsis l.
+Proof.
+  intro l. unfold I.last_is_ellipsis, G.last_is_ellipsis. rewrite <- map_rev.
+  destruct (rev l) as [|x r]; [reflexivity|]. cbn [map].
+  transitivity (is_ellipsis x); [|destruct x; reflexivity].
+  rewrite <- (is_ellipsis_tr x). destruct (tr Nm x); reflexivity.
+Qed.
+
+Lemma base_union_tuple : I.subclass T I.c_UnionType I.c_tuple = false.
+Proof. pose proof Hbase as H. split_base H. apply negb_true_iff. assumption. Qed.
+
+Lemma isfixedtupletype_tr : forall t, I.isfixedtupletype T (tr Nm t) = G.is_fixed_tuple t || empty_tuple t.
+Proof.
+  intro t. unfold I.isfixedtupletype. cbv zeta. rewrite args_tr_all, dunder_args_tr.
+  destruct t as [s| | | |n|g a|sp ms|c|m n x|m n x|m n bd|x|a mo]; try reflexivity.
+  - (* generic *) cbn [G.args_of G.is_fixed_tuple]. rewrite last_is_ellipsis_tr.
+    gen_fact g.
+    match goal with X : Bool.eqb (I.safe_issubclass T _ _) _ = true |- _ => apply Bool.eqb_prop in X; rename X into Hsub end.
+    replace (I.get_origin T (tr Nm (G.GGen g a))) with (Some (I.IClass (gen_origin T Nm g)))
+      by (destruct g; reflexivity).
+    rewrite Hsub.
+    destruct a as [|x r].
+    + cbn. destruct g; reflexivity.
+    + cbn [map negb andb orb]. destruct (G.last_is_ellipsis (x :: r)); destruct g; reflexivity.
+  - (* union *) cbn [G.args_of G.is_fixed_tuple empty_tuple orb].
+    match goal with |- (if ?c then _ else _) = _ => destruct c end; [reflexivity|].
+    destruct sp; cbn [tr tr_sp I.get_origin]; try reflexivity.
+    unfold I.safe_issubclass. cbn [I.issubclass_raw I.subclass_any existsb].
+    rewrite base_union_tuple. reflexivity.
+  - (* Final *) cbn [map]. unfold I.last_is_ellipsis. cbn [rev app]. destruct (tr Nm x); reflexivity.
+Qed.
+
+(* ---- isstructuredtype (on unwrapped annotations) *)
+Lemma origin_plain : forall t, is_wrapper t = false ->
+  I.origin T (tr Nm t) = IS.finish T (head (rw_image Nm t)).
+Proof. intros t H. rewrite origin_tr, (wcore_plain t H). reflexivity. Qed.
+
+Lemma class_row : forall c, match E c with
+  | Some d => exists i, I.cinfo T (n_cls Nm c) = Some i /\ row_ok T d i = true
+  | None => I.cinfo T (n_cls Nm c) = None end.
+Proof. intro c. apply (Hrows c). Qed.
+
+Lemma isstructured_class : forall c, I.isstructuredtype T (I.IClass (n_cls Nm c)) = true.
+Proof.
+  intro c. unfold I.isstructuredtype.
+  pose proof (origin_plain (G.GClass c) eq_refl) as Ho. cbn [tr rw_image] in Ho.
+  rewrite head_class, finish_class_fresh in Ho. rewrite Ho.
+  assert (Hu : I.isuniontype T (I.IClass (n_cls Nm c)) = false) by (apply (isuniontype_tr (G.GClass c))).
+  assert (Hl : I.isliteral T (I.IClass (n_cls Nm c)) = false) by (apply (isliteral_tr (G.GClass c))).
+  rewrite Hu, Hl. cbn [negb andb]. rewrite andb_true_r.
+  unfold I.isstdlibsubtype, I.safe_issubclass. cbn [I.resolve_supertype I.issubclass_raw].
+  unfold I.isnamedtuple, I.istypeddict, I.subclass_any, I.subclass, I.cflag.
+  pose proof (class_row c) as Hr. destruct (E c) as [d|].
+  - destruct Hr as [i [Hi Hok]]. rewrite Hi. unfold row_ok in Hok.
+    apply andb_prop in Hok. destruct Hok as [_ Hst].
+    apply orb_prop in Hst. destruct Hst as [Hst|Hst]; [apply orb_prop in Hst; destruct Hst as [Hst|Hst]|].
+    + match goal with |- context [negb ?e] => change (negb e = true) in Hst; rewrite Hst end. apply orb_true_r.
+    + rewrite Hst. rewrite orb_true_r. reflexivity.
+    + rewrite Hst. rewrite orb_true_r. reflexivity.
+  - rewrite Hr.
+    assert (Hx : existsb (fun _ : I.cls => false) (I.t_stdlib T) = false) by (induction (I.t_stdlib T); auto).
+    rewrite Hx. reflexivity.
+Qed.
+
+Lemma isstructuredtype_tr : forall t, plain t = true -> I.isstructuredtype T (tr Nm t) = structured_g t.
+Proof.
+  intros t Hp.
+  destruct t as [s| | | |n|g a|sp ms|c|m n x|m n x|m n bd|x|a mo]; try discriminate Hp.
+  - (* scalar *) unfold I.isstructuredtype.
+    rewrite (isfixedtupletype_tr (G.GScalar s)), (isuniontype_tr (G.GScalar s)), (isliteral_tr (G.GScalar s)).
+    rewrite (origin_plain (G.GScalar s) eq_refl). cbn [tr rw_image]. rewrite head_class.
+    sc_fact s. repeat match goal with X : negb _ = true |- _ => apply negb_true_iff in X end.
+    repeat match goal with X : Bool.eqb _ _ = true |- _ => apply Bool.eqb_prop in X end.
+    repeat match goal with X : I.isnamedtuple T _ = false |- _ => rewrite X end.
+    repeat match goal with X : I.istypeddict T _ = false |- _ => rewrite X end.
+    repeat match goal with X : I.isstdlibsubtype T _ = _ |- _ => rewrite X end.
+    cbn. rewrite !andb_true_r. reflexivity.
+  - (* NoneType *) unfold I.isstructuredtype.
+    rewrite (isfixedtupletype_tr G.GNone), (isuniontype_tr G.GNone), (isliteral_tr G.GNone).
+    rewrite (origin_plain G.GNone eq_refl). cbn [tr rw_image]. rewrite head_class.
+    pose proof Hbase as H. split_base H.
+    repeat match goal with X : negb _ = true |- _ => apply negb_true_iff in X end.
+    repeat match goal with X : I.isnamedtuple T _ = false |- _ => rewrite X end.
+    repeat match goal with X : I.istypeddict T _ = false |- _ => rewrite X end.
+    repeat match goal with X : I.isstdlibsubtype T (IS.finish T (I.IClass I.c_NoneType)) = _ |- _ => rewrite X end.
+    reflexivity.
+  - (* Ellipsis *) unfold I.isstructuredtype.
+    rewrite (isuniontype_tr G.GEllipsis), (isliteral_tr G.GEllipsis).
+    rewrite (origin_plain G.GEllipsis eq_refl). cbn [tr rw_image]. unfold head. cbn [I.get_origin].
+    pose proof Hbase as H. split_base H.
+    repeat match goal with X : negb _ = true |- _ => apply negb_true_iff in X end.
+    repeat match goal with X : I.isstdlibsubtype T (IS.finish T I.IEllipsis) = _ |- _ => rewrite X end.
+    cbn. rewrite ?orb_true_r. reflexivity.
+  - (* Any *) unfold I.isstructuredtype.
+    rewrite (isuniontype_tr G.GAny), (isliteral_tr G.GAny).
+    rewrite (origin_plain G.GAny eq_refl). cbn [tr rw_image]. rewrite head_class.
+    pose proof Hbase as H. split_base H.
+    repeat match goal with X : negb _ = true |- _ => apply negb_true_iff in X end.
+    repeat match goal with X : I.isstdlibsubtype T (IS.finish T (I.IClass I.c_Any)) = _ |- _ => rewrite X end.
+    cbn. rewrite ?orb_true_r. reflexivity.
+  - (* Literal *) unfold I.isstructuredtype.
+    rewrite (isfixedtupletype_tr (G.GLit n)), (isliteral_tr (G.GLit n)). cbn. rewrite andb_false_r. reflexivity.
+  - (* generic *) unfold I.isstructuredtype.
+    rewrite (isfixedtupletype_tr (G.GGen g a)), (isuniontype_tr (G.GGen g a)), (isliteral_tr (G.GGen g a)).
+    rewrite (origin_plain (G.GGen g a) eq_refl). cbn [tr rw_image]. rewrite head_gen.
+    gen_fact g.
+    repeat match goal with X : I.isstdlibsubtype T _ = true |- _ => rewrite X end.
+    assert (Hn : I.isnamedtuple T (tr_gen Nm g (map (tr Nm) a)) = false) by (destruct g; reflexivity).
+    assert (Hd : I.istypeddict T (tr_gen Nm g (map (tr Nm) a)) = false) by (destruct g; reflexivity).
+    rewrite Hn, Hd. cbn [structured_g wcore G.is_union G.is_literal ref_literal negb andb orb].
+    rewrite !orb_false_r. reflexivity.
+  - (* union *) unfold I.isstructuredtype.
+    rewrite (isfixedtupletype_tr (G.GUnion sp ms)), (isuniontype_tr (G.GUnion sp ms)).
+    cbn. rewrite andb_false_r. reflexivity.
+  - (* class *) apply isstructured_class.
+  - (* reference *) unfold I.isstructuredtype.
+    rewrite (isfixedtupletype_tr (G.GRef a mo)), (isuniontype_tr (G.GRef a mo)), (isliteral_tr (G.GRef a mo)).
+    rewrite (origin_plain (G.GRef a mo) eq_refl). cbn [tr rw_image]. unfold head. cbn [I.get_origin].
+    rewrite finish_ref. reflexivity.
+Qed.
+
+(* what graph._level relies on: the members of a fixed tuple and of a class are pulled from the signature /
+   the hints because the annotation is structured *)
+Lemma hints_structured : forall t, plain t = true -> G.hints E t <> [] -> I.isstructuredtype T (tr Nm t) = true.
+Proof.
+  intros t Hp Hh. rewrite (isstructuredtype_tr t Hp).
+  destruct t; try (exfalso; apply Hh; reflexivity); try reflexivity.
+  cbn [G.hints] in Hh. cbn [structured_g]. destruct (G.is_fixed_tuple (G.GGen g args)); [reflexivity|].
+  exfalso. apply Hh. reflexivity.
+Qed.
+
+(* ---- isstdlibtype *)
+Lemma isstd_union : forall sp l, I.isstdlibtype T (I.IUnion sp l) =
+  if I.isoptionaltype T (I.IUnion sp l)
+  then forallb (fun y => if I.is_nullarg y then true else I.isstdlibtype T y) l
+  else if I.isuniontype T (I.IUnion sp l) then forallb (I.isstdlibtype T) l else I.stdlib_base T (I.IUnion sp l).
+Proof.
+  intros sp l. cbn [I.isstdlibtype].
+  assert (H1 : forall l0,
+    (fix all_std_nonnull (l0 : list I.ity) : bool :=
+       match l0 with
+       | [] => true
+       | x :: r => (if I.is_nullarg x then true else I.isstdlibtype T x) && all_std_nonnull r
+       end) l0 = forallb (fun y => if I.is_nullarg y then true else I.isstdlibtype T y) l0).
+  { induction l0 as [|x r IH]; [reflexivity|]. cbn [forallb]. rewrite <- IH. reflexivity. }
+  assert (H2 : forall l0,
+    (fix all_std (l0 : list I.ity) : bool :=
+       match l0 with [] => true | x :: r => I.isstdlibtype T x && all_std r end) l0
+    = forallb (I.isstdlibtype T) l0).
+  { induction l0 as [|x r IH]; [reflexivity|]. cbn [forallb]. rewrite <- IH. reflexivity. }
+  rewrite H1, H2. reflexivity.
+Qed.
+
+Lemma isstd_other : forall x,
+  match x with I.IUnion _ _ | I.ILiteral _ | I.IClassVar _ => false | _ => true end = true ->
+  I.isstdlibtype T x =
+  if I.isoptionaltype T x then true else if I.isuniontype T x then true else I.stdlib_base T x.
+Proof. intros x H. destruct x; try discriminate H; reflexivity. Qed.
+
+Lemma stdlib_base_tr : forall t, I.stdlib_base T (tr Nm t) = G.in_stdlib_set (G.resolve_super t).
+Proof.
+  intro t. unfold I.stdlib_base, I.type_in. rewrite type_of_tr, resolve_supertype_tr, orb_false_r.
+  destruct (G.resolve_super t) as [s| | | |n|g a|sp ms|c|m n x|m n x|m n bd|x|a mo]; try reflexivity;
+    cbn [tr I.in_stdlib G.in_stdlib_set].
+  - sc_fact s. repeat match goal with X : Bool.eqb _ _ = true |- _ => apply Bool.eqb_prop in X end. assumption.
+  - pose proof Hbase as H. split_base H. assumption.
+  - pose proof Hbase as H. split_base H. apply negb_true_iff. assumption.
+  - destruct g; reflexivity.
+  - apply (fresh_parts c).
+Qed.
+
+Lemma is_stdlib_union : forall sp ms, G.is_stdlib (G.GUnion sp ms) = forallb G.is_stdlib ms.
+Proof.
+  intros sp ms. cbn [G.is_stdlib]. induction ms as [|x r IH]; [reflexivity|]. cbn [forallb]. rewrite <- IH. reflexivity.
+Qed.
+Lemma std_guard_union : forall sp ms, std_guard (G.GUnion sp ms) = forallb std_guard ms.
+Proof.
+  intros sp ms. cbn [std_guard]. induction ms as [|x r IH]; [reflexivity|]. cbn [forallb]. rewrite <- IH. reflexivity.
+Qed.
+
+Lemma isstd_members : forall ms,
+  Forall (fun x => std_guard x = true -> I.isstdlibtype T (tr Nm x) = G.is_stdlib x) ms ->
+  forallb std_guard ms = true ->
+  forallb (fun y => if I.is_nullarg y then true else I.isstdlibtype T y) (map (tr Nm) ms) = forallb G.is_stdlib ms
+  /\ forallb (I.isstdlibtype T) (map (tr Nm) ms) = forallb G.is_stdlib ms.
+Proof.
+  induction ms as [|x r IH]; intros HF Hg; [split; reflexivity|].
+  inversion HF as [|? ? Hx Hr]; subst. cbn [forallb] in Hg. apply andb_prop in Hg. destruct Hg as [Hgx Hgr].
+  destruct (IH Hr Hgr) as [I1 I2]. cbn [map forallb]. rewrite I1, I2, (Hx Hgx), tr_nullarg. split; [|reflexivity].
+  destruct x; reflexivity.
+Qed.
+
+Lemma isstdlibtype_tr : forall t, std_guard t = true -> I.isstdlibtype T (tr Nm t) = G.is_stdlib t.
+Proof.
+  assert (NU : forall t, G.is_union t = false -> G.is_union (wcore t) = false ->
+               match tr Nm t with I.IUnion _ _ | I.ILiteral _ | I.IClassVar _ => false | _ => true end = true ->
+               I.isstdlibtype T (tr Nm t) = G.is_stdlib t).
+  { intros t Hu Hw Hs. rewrite (isstd_other _ Hs), isoptionaltype_tr, isuniontype_tr, Hw, stdlib_base_tr.
+    destruct t; try discriminate Hu; reflexivity. }
+  induction t as [s| | | |n|g a _|sp ms IH|c|m n x _|m n x _|m n bd|x _|a mo] using gty_ind'; intro Hg;
+    try (apply NU; reflexivity).
+  - (* Literal *) cbn [tr I.isstdlibtype].
+    change (I.ILiteral [I.LInt (Z.of_nat n)]) with (tr Nm (G.GLit n)).
+    rewrite isoptionaltype_tr, isuniontype_tr. reflexivity.
+  - (* generic *) apply NU; try reflexivity. cbn [tr]. destruct g; reflexivity.
+  - (* union *) cbn [tr]. rewrite isstd_union.
+    change (I.IUnion (tr_sp sp) (map (tr Nm) ms)) with (tr Nm (G.GUnion sp ms)).
+    rewrite isoptionaltype_tr, isuniontype_tr. cbn [wcore G.is_union].
+    rewrite std_guard_union in Hg. destruct (isstd_members ms IH Hg) as [I1 I2].
+    rewrite I1, I2, is_stdlib_union. destruct (existsb is_none ms); reflexivity.
+  - (* NewType *) apply NU; try reflexivity. cbn [std_guard wrapped_union is_wrapper andb] in Hg.
+    apply negb_true_iff in Hg. exact Hg.
+  - (* alias *) apply NU; try reflexivity. cbn [std_guard wrapped_union is_wrapper andb] in Hg.
+    apply negb_true_iff in Hg. exact Hg.
+Qed.
+
+(* "Only subscripted generics or non-stdlib types can be cyclic." *)
+
+(* ---- issubscriptedgeneric: "[" in str(t) *)
+Lemma issub_bracket : forall x, I.issubscriptedgeneric T x = I.has_char "["%char (I.show T x).
+Proof.
+  intro x. unfold I.issubscriptedgeneric. cbv zeta.
+  destruct (I.has_char "["%char (I.show T x)) eqn:H; [|apply andb_false_r].
+  rewrite andb_true_r. unfold I.isgeneric at 2. rewrite H. rewrite orb_true_r. cbn [orb]. apply orb_true_r.
+Qed.
+
+Definition inner (m : I.mode) : bool := match m with I.MStr => false | _ => true end.
+
+Lemma has_join_I : forall m' sep l, I.has_char "["%char sep = false ->
+  I.has_char "["%char
+    ((fix join (m' : I.mode) (sep : string) (l0 : list I.ity) {struct l0} : string :=
+        match l0 with
+        | [] => EmptyString
+        | x :: r => match r with
+                    | [] => I.repr T m' x
+                    | _ :: _ => I.sapp (I.repr T m' x) (I.sapp sep (join m' sep r))
+                    end
+        end) m' sep l)
+  = existsb (fun x => I.has_char "["%char (I.repr T m' x)) l.
+Proof.
+  intros m' sep l Hs. induction l as [|x r IH]; [reflexivity|].
+  destruct r as [|y r'].
+  - cbn [existsb]. rewrite orb_false_r. reflexivity.
+  - cbn [existsb] in *. rewrite <- IH. unfold I.sapp; rewrite !has_char_app, Hs. reflexivity.
+Qed.
+
+Lemma repr_pipe_br : forall m l,
+  I.has_char "["%char (I.repr T m (I.IUnion I.UPipe l)) = existsb (fun x => I.has_char "["%char (I.repr T I.MUn x)) l.
+Proof. intros m l. cbn [I.repr]. apply (has_join_I I.MUn " | " l). reflexivity. Qed.
+
+Lemma repr_union_br : forall m sp l, sp <> I.UPipe -> I.has_char "["%char (I.repr T m (I.IUnion sp l)) = true.
+Proof.
+  intros m sp l Hsp.
+  assert (H : forall X, I.has_char "["%char (I.sapp "typing.Union[" X) = true) by reflexivity.
+  assert (H' : forall X, I.has_char "["%char (I.sapp "typing.Optional[" X) = true) by reflexivity.
+  destruct sp; try (exfalso; apply Hsp; reflexivity);
+    destruct l as [|a [|b [|c r]]]; cbn [I.repr]; try apply H;
+    destruct (I.ity_eqb a (I.IClass I.c_NoneType)); try apply H';
+    destruct (I.ity_eqb b (I.IClass I.c_NoneType)); try apply H'; apply H.
+Qed.
+
+Lemma nobr_pipe : forall ms, nobr E (G.GUnion G.UPipe ms) = forallb (nobr E) ms.
+Proof.
+  intro ms. cbn [nobr]. induction ms as [|x r IH]; [reflexivity|]. cbn [forallb]. rewrite <- IH. reflexivity.
+Qed.
+
+Lemma cstr_row : forall c d f, E c = Some d ->
+  exists i, I.cstr T f (n_cls Nm c) = f i /\ row_ok T d i = true.
+Proof.
+  intros c d f Hc. pose proof (class_row c) as Hr. rewrite Hc in Hr. destruct Hr as [i [Hi Hok]].
+  exists i. unfold I.cstr. rewrite Hi. split; [reflexivity | exact Hok].
+Qed.
+
+Lemma row_parts : forall d i, row_ok T d i = true ->
+  I.ci_str i = class_str d /\ I.ci_qualname i = G.cqual d /\ I.ci_trepr i = class_trepr d.
+Proof.
+  intros d i H. unfold row_ok in H.
+  apply andb_prop in H. destruct H as [H _]. apply andb_prop in H. destruct H as [H H3].
+  apply andb_prop in H. destruct H as [H1 H2].
+  apply String.eqb_eq in H1. apply String.eqb_eq in H2. apply String.eqb_eq in H3. repeat split; assumption.
+Qed.
+
+Lemma base_none_any : nb (I.cstr T I.ci_str I.c_NoneType) = true /\ nb (I.cstr T I.ci_trepr I.c_NoneType) = true
+  /\ I.cstr T I.ci_str I.c_Any = "typing.Any" /\ I.cstr T I.ci_trepr I.c_Any = "typing.Any".
+Proof.
+  pose proof Hbase as H. split_base H.
+  repeat match goal with X : String.eqb _ _ = true |- _ => apply String.eqb_eq in X end.
+  repeat split; assumption.
+Qed.
+
+(* the text of an annotation where it is printed INSIDE another one (modes of typing._type_repr, of
+   types.GenericAlias and of types.UnionType) carries a "[" exactly when Graph.show does *)
+Lemma br_inner : forall t, nobr E t = true -> forall m, inner m = true ->
+  I.has_char "["%char (I.repr T m (tr Nm t)) = I.has_char "["%char (G.show E t).
+Proof.
+  destruct base_none_any as [_ [Hnt [_ Hat]]].
+  induction t as [s| | | |n|g a _|sp ms IH|c|mm n x _|mm n x _|mm n bd|x _|a mo] using gty_ind';
+    intros Hg m Hm.
+  - (* scalar *) sc_fact s. repeat match goal with X : String.eqb _ _ = true |- _ => apply String.eqb_eq in X end.
+    cbn [tr]. assert (Hr : I.repr T m (I.IClass (sid Nm s)) = I.cstr T I.ci_trepr (sid Nm s)).
+    { destruct m; try discriminate Hm; cbn [I.repr]; try reflexivity. rewrite sid_not_none. reflexivity. }
+    rewrite Hr.
+    match goal with X : I.cstr T I.ci_trepr (sid Nm s) = _ |- _ => rewrite X end. destruct s; reflexivity.
+  - (* NoneType *) cbn [tr]. destruct m; try discriminate Hm; cbn [I.repr G.show].
+    + unfold nb in Hnt. apply negb_true_iff in Hnt. rewrite Hnt. reflexivity.
+    + unfold nb in Hnt. apply negb_true_iff in Hnt. rewrite Hnt. reflexivity.
+    + reflexivity.
+  - (* Ellipsis *) destruct m; try discriminate Hm; reflexivity.
+  - (* Any *) cbn [tr]. assert (Hr : I.repr T m (I.IClass I.c_Any) = "typing.Any").
+    { destruct m; try discriminate Hm; cbn [I.repr]; exact Hat. }
+    rewrite Hr. reflexivity.
+  - (* Literal *) reflexivity.
+  - (* generic *) transitivity true.
+    + cbn [tr]. destruct g; cbn [tr_gen I.repr]; unfold I.sapp; rewrite !has_char_app; cbn; rewrite ?orb_true_r; reflexivity.
+    + cbn [G.show]. unfold G.sapp; rewrite !has_char_app. destruct g; cbn; rewrite ?orb_true_r; reflexivity.
+  - (* union *) destruct sp.
+    + cbn [tr tr_sp]. rewrite repr_union_br by discriminate. reflexivity.
+    + cbn [tr tr_sp]. rewrite repr_union_br by discriminate. reflexivity.
+    + cbn [tr tr_sp]. rewrite repr_pipe_br. cbn [G.show]. rewrite has_char_join_G by reflexivity.
+      rewrite nobr_pipe in Hg. clear m Hm.
+      induction ms as [|y r IHr]; [reflexivity|].
+      inversion IH as [|? ? Hy Hr]; subst. cbn [forallb] in Hg. apply andb_prop in Hg. destruct Hg as [Hgy Hgr].
+      cbn [map existsb]. rewrite (Hy Hgy I.MUn eq_refl), (IHr Hr Hgr). reflexivity.
+  - (* class *) cbn [nobr] in Hg. destruct (E c) as [d|] eqn:Hc; [|discriminate Hg].
+    destruct (cstr_row c d I.ci_trepr Hc) as [i [Hi Hok]]. destruct (row_parts d i Hok) as [_ [_ Ht]].
+    cbn [tr]. assert (Hr : I.repr T m (I.IClass (n_cls Nm c)) = I.cstr T I.ci_trepr (n_cls Nm c)).
+    { destruct m; try discriminate Hm; cbn [I.repr]; try reflexivity. rewrite cls_not_none. reflexivity. }
+    rewrite Hr, Hi, Ht. cbn [G.show]. rewrite Hc. reflexivity.
+  - (* NewType *) cbn [nobr] in Hg. unfold nb in Hg. apply negb_true_iff in Hg.
+    cbn [tr I.repr G.show]. unfold I.sapp, G.sapp; rewrite !has_char_app, Hg. reflexivity.
+  - (* alias *) reflexivity.
+  - (* string alias *) reflexivity.
+  - (* Final *) reflexivity.
+  - (* reference *) cbn [tr I.repr G.show]. unfold I.sapp, G.sapp; rewrite !has_char_app.
+    destruct mo as [mm|]; cbn [nobr] in Hg.
+    + unfold nb in Hg. apply negb_true_iff in Hg. rewrite !has_char_app, Hg. cbn. rewrite ?orb_false_r. reflexivity.
+    + cbn. rewrite ?orb_false_r. reflexivity.
+Qed.
+
+Lemma issubscripted_tr : forall t, nobr E t = true ->
+  I.issubscriptedgeneric T (tr Nm t) = G.is_subscripted E t.
+Proof.
+  intros t Hg. rewrite issub_bracket. unfold G.is_subscripted, I.show.
+  destruct t as [s| | | |n|g a|sp ms|c|mm n x|mm n x|mm n bd|x|a mo].
+  - sc_fact s. cbn [tr I.repr G.has_bracket].
+    match goal with X : nb (I.cstr T I.ci_str (sid Nm s)) = true |- _ => unfold nb in X; apply negb_true_iff in X; exact X end.
+  - destruct base_none_any as [Hn _]. unfold nb in Hn. apply negb_true_iff in Hn. exact Hn.
+  - reflexivity.
+  - destruct base_none_any as [_ [_ [Ha _]]]. cbn [tr I.repr G.has_bracket]. rewrite Ha. reflexivity.
+  - reflexivity.
+  - change (G.has_bracket E (G.GGen g a)) with (G.has_char "["%char (G.show E (G.GGen g a))).
+    rewrite has_char_GI, <- (br_inner _ Hg I.MTyping eq_refl). cbn [tr]. destruct g; reflexivity.
+  - change (G.has_bracket E (G.GUnion sp ms)) with (G.has_char "["%char (G.show E (G.GUnion sp ms))).
+    rewrite has_char_GI, <- (br_inner _ Hg I.MTyping eq_refl). cbn [tr]. destruct sp; reflexivity.
+  - cbn [nobr] in Hg. destruct (E c) as [d|] eqn:Hc; [|discriminate Hg].
+    destruct (cstr_row c d I.ci_str Hc) as [i [Hi Hok]]. destruct (row_parts d i Hok) as [Hs _].
+    cbn [tr I.repr G.has_bracket]. rewrite Hi, Hs. unfold class_str.
+    apply andb_prop in Hg. destruct Hg as [H1 H2]. unfold nb in H1, H2.
+    apply negb_true_iff in H1. apply negb_true_iff in H2. rewrite !has_char_app, H1, H2. reflexivity.
+  - change (G.has_bracket E (G.GNewType mm n x)) with (G.has_char "["%char (G.show E (G.GNewType mm n x))).
+    rewrite has_char_GI, <- (br_inner _ Hg I.MTyping eq_refl). reflexivity.
+  - cbn [tr I.repr G.has_bracket G.show]. symmetry. apply has_char_GI.
+  - cbn [tr I.repr G.has_bracket G.show]. symmetry. apply has_char_GI.
+  - reflexivity.
+  - cbn [tr I.repr G.has_bracket]. rewrite has_char_GI; unfold I.sapp; rewrite !has_char_app.
+    destruct mo as [mm|]; cbn [nobr] in Hg.
+    + unfold nb in Hg. apply negb_true_iff in Hg. rewrite !has_char_app, Hg. cbn. rewrite ?orb_false_r. reflexivity.
+    + cbn. rewrite ?orb_false_r. reflexivity.
+Qed.
+
+(* "Only subscripted generics or non-stdlib types can be cyclic." *)
+Lemma can_be_cyclic_tr : forall u, nobr E u = true -> std_guard u = true ->
+  I.issubscriptedgeneric T (tr Nm u) || negb (I.isstdlibtype T (tr Nm u)) = G.can_be_cyclic E u.
+Proof. intros u H1 H2. unfold G.can_be_cyclic. rewrite issubscripted_tr, isstdlibtype_tr by assumption. reflexivity. Qed.
+
+(* is_generic of graph.py: issubscriptedgeneric(unwrapped) or isuniontype(unwrapped) *)
+Lemma is_generic_tr : forall u, nobr E u = true -> is_wrapper u = false ->
+  I.issubscriptedgeneric T (tr Nm u) || I.isuniontype T (tr Nm u) = G.is_generic E u.
+Proof.
+  intros u H1 H2. unfold G.is_generic. rewrite issubscripted_tr, isuniontype_tr, (wcore_plain u H2) by assumption.
+  reflexivity.
+Qed.
+
+(* the three-way decision of get_type_graph on a revisited member: defer as itself / build a reference *)
+Lemma unwrap_not_wrapper : forall c, is_wrapper (G.unwrap c) = false.
+Proof. induction c using gty_ind'; cbn [G.unwrap is_wrapper]; auto. Qed.
+
+Lemma defer_decision_tr : forall c, nobr E (G.unwrap c) = true -> su_guard c = true ->
+  (I.issubscriptedgeneric T (tr Nm (G.unwrap c)) || I.isuniontype T (tr Nm (G.unwrap c)))
+  || I.should_unwrap T (tr Nm c) || I.isforwardref (tr Nm c)
+  = G.is_generic E (G.unwrap c) || G.should_unwrap c || G.is_ref c.
+Proof.
+  intros c Hn Hs. rewrite (is_generic_tr _ Hn (unwrap_not_wrapper c)), should_unwrap_tr, isforwardref_tr.
+  f_equal. f_equal. unfold su_guard in Hs. apply negb_true_iff in Hs.
+  destruct c; try reflexivity; cbn [is_wrapper andb wcore] in Hs; cbn [wcore G.should_unwrap]; exact Hs.
+Qed.
+
+(* ---- qualname (the reference branch of get_type_graph) *)
+Lemma isgeneric_str : forall s, I.isgeneric T (I.IValue (I.LStr s)) = typing_text s.
+Proof. intro s. unfold I.isgeneric, typing_text. cbn. apply orb_false_r. Qed.
+
+Lemma qualname_unfold : forall x, I.qualname T x =
+  let strobj := match x with I.IForwardRef a _ => a | _ => I.show T x end in
+  if typing_text strobj then I.before_char "["%char strobj
+  else match x with
+       | I.IClass c => I.replace_locals 200 (I.cstr T I.ci_qualname c)
+       | I.INewType nm _ | I.IAlias nm _ | I.IAliasStr nm _ | I.ITypeVar nm _ _ | I.IRoutine nm => nm
+       | _ => strobj
+       end.
+Proof. intro x. unfold I.qualname. cbv zeta. rewrite isgeneric_str. reflexivity. Qed.
+
+Lemma qualname_tr : forall t, qual_guard E t = true -> I.qualname T (tr Nm t) = G.qualname E t.
+Proof.
+  intros t Hg.
+  destruct t as [s| | | |n|g a|sp ms|c|mm n x|mm n x|mm n bd|x|a mo]; try discriminate Hg.
+  - sc_fact s. repeat match goal with X : String.eqb _ _ = true |- _ => apply String.eqb_eq in X end.
+    cbn [tr G.qualname]. assumption.
+  - pose proof Hbase as H. split_base H.
+    repeat match goal with X : String.eqb _ _ = true |- _ => apply String.eqb_eq in X end. cbn [tr G.qualname]. assumption.
+  - reflexivity.
+  - destruct base_none_any as [_ [_ [Ha _]]]. rewrite qualname_unfold. cbn [tr I.show I.repr]. rewrite Ha. reflexivity.
+  - rewrite qualname_unfold. reflexivity.
+  - (* class *) cbn [qual_guard] in Hg. destruct (E c) as [d|] eqn:Hc; [|discriminate Hg].
+    apply andb_prop in Hg. destruct Hg as [Hg Hl]. apply andb_prop in Hg. destruct Hg as [H1 H2].
+    apply String.eqb_eq in Hl. unfold nb in H1, H2. apply negb_true_iff in H1. apply negb_true_iff in H2.
+    destruct (cstr_row c d I.ci_str Hc) as [i [Hi Hok]]. destruct (row_parts d i Hok) as [Hs [Hq _]].
+    destruct (cstr_row c d I.ci_qualname Hc) as [i' [Hi' Hok']]. destruct (row_parts d i' Hok') as [_ [Hq' _]].
+    rewrite qualname_unfold. cbn [tr I.show I.repr]. cbv zeta. rewrite Hi, Hs.
+    assert (Ht : typing_text (class_str d) = false).
+    { unfold typing_text, class_str. rewrite !has_char_app, H1, H2. reflexivity. }
+    rewrite Ht, Hi', Hq', Hl. cbn [G.qualname]. rewrite Hc. reflexivity.
+  - (* NewType *) cbn [qual_guard] in Hg. unfold nb in Hg. apply negb_true_iff in Hg.
+    rewrite qualname_unfold. cbn [tr I.show I.repr]. cbv zeta.
+    assert (Ht : typing_text (I.sapp I.user_module (I.sapp "." n)) = false).
+    { unfold typing_text, I.sapp. rewrite !has_char_app, Hg. reflexivity. }
+    rewrite Ht. reflexivity.
+  - (* alias *) cbn [qual_guard] in Hg. apply negb_true_iff in Hg.
+    rewrite qualname_unfold. cbn [tr I.show I.repr]. cbv zeta. rewrite Hg. reflexivity.
+  - (* string alias *) cbn [qual_guard] in Hg. apply negb_true_iff in Hg.
+    rewrite qualname_unfold. cbn [tr I.show I.repr]. cbv zeta. rewrite Hg. reflexivity.
+  - (* reference *) rewrite qualname_unfold. cbn [tr G.qualname]. cbv zeta.
+    rewrite generic_text_GI, before_char_GI. unfold typing_text, G.lbr.
+    destruct (I.has_char "["%char a) eqn:Hb.
+    + rewrite !orb_true_r. reflexivity.
+    + rewrite !orb_false_r, (before_char_none _ _ Hb).
+      destruct (I.prefixb "typing." a); destruct (I.prefixb "typing_extensions." a); reflexivity.
+Qed.
+
+(* module and qualified name of a class of the environment, as the interpreter prints them *)
+Lemma class_names_tr : forall c d, E c = Some d ->
+  I.cstr T I.ci_trepr (n_cls Nm c) = G.cmodule d +++ "." +++ G.cqual d
+  /\ I.cstr T I.ci_qualname (n_cls Nm c) = G.cqual d
+  /\ I.cstr T I.ci_str (n_cls Nm c) = "<class '" +++ G.cmodule d +++ "." +++ G.cqual d +++ "'>"
+  /\ G.module_attr E (G.GClass c) = Some (G.cmodule d).
+Proof.
+  intros c d Hc.
+  destruct (cstr_row c d I.ci_trepr Hc) as [i1 [H1 O1]]. destruct (row_parts d i1 O1) as [_ [_ T1]].
+  destruct (cstr_row c d I.ci_qualname Hc) as [i2 [H2 O2]]. destruct (row_parts d i2 O2) as [_ [T2 _]].
+  destruct (cstr_row c d I.ci_str Hc) as [i3 [H3 O3]]. destruct (row_parts d i3 O3) as [T3 _].
+  rewrite H1, H2, H3, T1, T2, T3. cbn [G.module_attr]. rewrite Hc. repeat split; reflexivity.
+Qed.
 End Bridge.
+
+(* ------------------------------------------------------------------------------------------- *)
+(* Part E: finite environments; rows as a function of the environment                            *)
+(* ------------------------------------------------------------------------------------------- *)
+Lemma rows_okb_sound : forall T cl e dq a b c,
+  rows_okb T cl = true -> rows_ok T (mk_names cl e dq a b c) (env_of_cenv cl).
+Proof.
+  intros T cl e dq a b c H. unfold rows_okb in H.
+  apply andb_prop in H. destruct H as [H0 Hl]. apply andb_prop in H0. destruct H0 as [Hf0 Hn0].
+  unfold rows_ok. cbn [n_cls mk_names]. intro c0.
+  induction cl as [|[k [i d]] r IH].
+  - cbn. split; [exact Hf0|]. unfold no_row in Hn0. destruct (I.cinfo T 0%N); [discriminate|reflexivity].
+  - cbn [forallb fst snd] in Hl. apply andb_prop in Hl. destruct Hl as [Hh Hr].
+    unfold env_of_cenv. cbn [map fst snd G.env_of ncls_of].
+    destruct (Nat.eqb k c0).
+    + apply andb_prop in Hh. destruct Hh as [Hfi Hrow]. split; [exact Hfi|].
+      destruct (I.cinfo T i) as [ci|]; [|discriminate]. exists ci. split; [reflexivity | exact Hrow].
+    + apply IH. exact Hr.
+Qed.
+
+(* rows built from the environment itself are accepted whenever the ids are fresh for the tables and pairwise
+   distinct from each other (checked by computation for a given list: rows_okb (ext T (rows_of cl)) cl) *)
+Lemma ext_tables : forall T rows,
+  I.t_stdlib (ext T rows) = I.t_stdlib T /\ I.t_builtin (ext T rows) = I.t_builtin T
+  /\ I.t_generic_map (ext T rows) = I.t_generic_map T /\ I.t_unresolvable (ext T rows) = I.t_unresolvable T.
+Proof. intros. repeat split. Qed.
